@@ -474,3 +474,16 @@ package openapi3
 //@   assuming @C20 doc != nil
 //@ extend func (*Loader).resolveEncodingHeaders
 //@   assuming @C20 doc != nil
+
+// C20: what a reference is resolved into is one of the ten referenceable kinds (the nine component
+// wrappers and path items); readableType names every one of them and is reached with nothing else.
+//@ spec referenceable(x any) bool :=
+//@     typeof(x) == type *CallbackRef || typeof(x) == type *ExampleRef || typeof(x) == type *HeaderRef || typeof(x) == type *LinkRef
+//@  || typeof(x) == type *ParameterRef || typeof(x) == type *PathItem || typeof(x) == type *RequestBodyRef || typeof(x) == type *ResponseRef
+//@  || typeof(x) == type *SchemaRef || typeof(x) == type *SecuritySchemeRef
+//@ func readableType
+//@   requires referenceable(x)
+//@   modifies nothing
+//@   tag C20
+//@ extend func (*Loader).resolveComponent
+//@   requires @C20 [target-of-a-referenceable-kind] referenceable(resolved)
